@@ -60,6 +60,9 @@ type KnownField struct {
 type KnownFunc struct {
 	Sig    string   `json:"sig"`
 	Params []string `json:"params"`
+	// Calls: names of the functions and methods the body calls (a fingerprint used to tell
+	// apart several candidates of one signature)
+	Calls []string `json:"calls,omitempty"`
 }
 
 // Known is the table the rename normalisation compares against (nil: off).
@@ -150,6 +153,45 @@ func SymbolsOf(pkgs map[string]*packages.Package) *KnownSymbols {
 				kp.Vars[name] = "var " + types.TypeString(o.Type(), qual)
 			case *types.Const:
 				kp.Vars[name] = "const " + types.TypeString(o.Type(), qual)
+			}
+		}
+		// call fingerprints
+		if p.TypesInfo != nil {
+			for _, f := range p.Syntax {
+				for _, d := range f.Decls {
+					fd, ok := d.(*ast.FuncDecl)
+					if !ok || fd.Body == nil {
+						continue
+					}
+					fo, _ := p.TypesInfo.Defs[fd.Name].(*types.Func)
+					if fo == nil {
+						continue
+					}
+					kf := kp.Funcs[funcKeyOf(fo)]
+					if kf == nil {
+						continue
+					}
+					seen := map[string]bool{}
+					ast.Inspect(fd.Body, func(n ast.Node) bool {
+						call, ok := n.(*ast.CallExpr)
+						if !ok {
+							return true
+						}
+						var id *ast.Ident
+						switch fun := call.Fun.(type) {
+						case *ast.Ident:
+							id = fun
+						case *ast.SelectorExpr:
+							id = fun.Sel
+						}
+						if id != nil && !seen[id.Name] {
+							seen[id.Name] = true
+							kf.Calls = append(kf.Calls, id.Name)
+						}
+						return true
+					})
+					sort.Strings(kf.Calls)
+				}
 			}
 		}
 	}
@@ -373,13 +415,41 @@ func (r *renamer) compute() {
 			fresh[g] = append(fresh[g], ck)
 		}
 		for g, olds := range missing {
-			news := fresh[g]
-			if len(olds) != 1 || len(news) != 1 {
-				continue
+			news := append([]string(nil), fresh[g]...)
+			olds = append([]string(nil), olds...)
+			sort.Strings(olds)
+			sort.Strings(news)
+			pair := func(o, n string) {
+				if fo := lookupFunc(p.Types, n); fo != nil {
+					r.objRen[fo] = nameOfKey(o)
+					r.report = append(r.report, fmt.Sprintf("func %s.%s -> %s", shortPkg(path), o, nameOfKey(n)))
+				}
 			}
-			if fo := lookupFunc(p.Types, news[0]); fo != nil {
-				r.objRen[fo] = nameOfKey(olds[0])
-				r.report = append(r.report, fmt.Sprintf("func %s.%s -> %s", shortPkg(path), olds[0], nameOfKey(news[0])))
+			// several functions of one signature: pair by similarity of name and of the calls made,
+			// greedily, as long as the best candidate is clearly better than the next one
+			for len(olds) > 0 && len(news) > 0 {
+				if len(olds) == 1 && len(news) == 1 {
+					pair(olds[0], news[0])
+					break
+				}
+				bi, bj, best, second := -1, -1, -1.0, -1.0
+				for i, o := range olds {
+					for j, n := range news {
+						sc := 0.5*jaccard(nameTokens(nameOfKey(o)), nameTokens(nameOfKey(n))) + 0.5*jaccard(kp.Funcs[o].Calls, cp.Funcs[n].Calls)
+						if sc > best {
+							second = best
+							bi, bj, best = i, j, sc
+						} else if sc > second {
+							second = sc
+						}
+					}
+				}
+				if best < 0.3 || best-second < 0.1 {
+					break
+				}
+				pair(olds[bi], news[bj])
+				olds = append(olds[:bi], olds[bi+1:]...)
+				news = append(news[:bj], news[bj+1:]...)
 			}
 		}
 		// package-level variables and constants
@@ -545,3 +615,46 @@ func RenameOverlay(pkgs map[string]*packages.Package) (map[string][]byte, []stri
 }
 
 var _ = token.NoPos
+
+// nameTokens splits an identifier at case changes and digits: cdiPrintCacheErrors ->
+// [cdi print cache errors].
+func nameTokens(s string) []string {
+	var out []string
+	cur := ""
+	for i, r := range s {
+		up := r >= 'A' && r <= 'Z'
+		if up && i > 0 && cur != "" {
+			out = append(out, strings.ToLower(cur))
+			cur = ""
+		}
+		cur += string(r)
+	}
+	if cur != "" {
+		out = append(out, strings.ToLower(cur))
+	}
+	return out
+}
+
+func jaccard(a, b []string) float64 {
+	if len(a) == 0 && len(b) == 0 {
+		return 0
+	}
+	sa := map[string]bool{}
+	for _, x := range a {
+		sa[x] = true
+	}
+	inter, union := 0, len(sa)
+	sb := map[string]bool{}
+	for _, x := range b {
+		if sb[x] {
+			continue
+		}
+		sb[x] = true
+		if sa[x] {
+			inter++
+		} else {
+			union++
+		}
+	}
+	return float64(inter) / float64(union)
+}
